@@ -66,6 +66,13 @@ RULE = (
     "under one segmentation policy: whatever fails a body stream must be, or be caused by, an HTTP protocol error (the "
     "explicit cause chain of RequestPayloadError / ClientPayloadError is followed; also judged in 'mutants' runs), and a "
     "request delivered in one read whose body cannot be parsed must be answered with a 4xx. "
+    "'openings' (8 %, drawn last): one opening of another protocol (TLS / SSLv2 / DTLS / QUIC records, HTTP/2 preface and frames, "
+    "SOCKS4/5, PROXY v1/v2, SSH, SMTP, RTSP, WebSocket frames, database / message-queue handshakes, a BOM, an HTTP response) cut "
+    "at every length 1..8, at seeded longer ones and whole, plus 1-3 byte lines of arbitrary bytes, standing as the whole start "
+    "line, the method / version token, the target, a field line, after blank lines, or as the second message of a connection "
+    "(request and response parsers) - through the parser objects (feed_data at seeded read boundaries + feed_eof) and the real "
+    "server / client protocol: only protocol errors, a 4xx for every parser error, every stream that ends in an empty line "
+    "handled or refused. "
     "Non-trivial: at least one rejection or limit decision was exercised. "
     "Distinct = (kind, position, limits, signature)."
 )
@@ -409,7 +416,74 @@ def _gen_chunked(rng):
             "policy": rng.choice(["whole", "whole", "byte", "small", "after_cr", "tiny"]), "read_bufsize": rng.choice([65536, 8])}
 
 
+# Openings of other protocols: what a peer that is not speaking HTTP/1 sends first (a TLS / SSLv2 / DTLS hello, the HTTP/2
+# preface, SOCKS, the PROXY protocol, SSH, SMTP, RTSP, a WebSocket frame, database and message-queue handshakes, ...).  An
+# HTTP parser meets them - whole, or cut short by a read boundary, a line end inside them or the end of input - as its start
+# line or as one element of it, and often has special diagnostics for them; every prefix must still end in a protocol error.
+OPENINGS = [
+    "\x16\x03\x01\x02\x00\x01\x00\x01\xfc\x03\x03\x5b\x8e\x12\xf0\x9a", "\x16\x03\x00\x00\x59\x01\x00\x00\x55\x03\x00",
+    "\x16\x03\x03\x00\xa5\x01\x00\x00\xa1\x03\x03\x00\x01\x02", "\x16\x03\x04\x00\x2f\x01\x00\x00\x2b\x03\x03",
+    "\x16\x03\x02\x01\x00\x01\x00\x00\xfc\x03\x03", "\x16\x03\x7f\x00\x10\x01\x00\x00\x0c", "\x15\x03\x03\x00\x02\x02\x28",
+    "\x17\x03\x03\x00\x15\x8a\x01\x44\x9c", "\x14\x03\x03\x00\x01\x01", "\x80\x2e\x01\x00\x02\x00\x15\x00\x00\x00\x10",
+    "\x16\xfe\xfd\x00\x00\x00\x00\x00\x00\x00\x00\x00\x7c\x01", "\xc0\x00\x00\x00\x01\x08\x83\x94\xc8\xf0\x3e\x51",
+    "PRI * HTTP/2.0\r\n\r\nSM\r\n\r\n\x00\x00\x12\x04\x00\x00\x00\x00\x00", "\x00\x00\x12\x04\x00\x00\x00\x00\x00\x00\x03\x00\x00\x00\x64",
+    "\x04\x01\x00\x50\x7f\x00\x00\x01user\x00", "\x04\x01\x01\xbb\x00\x00\x00\x01\x00example.com\x00", "\x05\x01\x00", "\x05\x02\x00\x02",
+    "\x05\x01\x00\x03\x0bexample.com\x00\x50", "PROXY TCP4 192.0.2.1 192.0.2.2 56324 80\r\n", "PROXY UNKNOWN\r\n",
+    "PROXY TCP6 ::1 ::1 1 2\r\n", "\r\n\r\n\x00\r\nQUIT\n\x21\x11\x00\x0c\xc0\x00\x02\x01\xc0\x00\x02\x02\xdc\x04\x00\x50",
+    "SSH-2.0-OpenSSH_9.6\r\n", "EHLO client.test\r\n", "OPTIONS * RTSP/1.0\r\nCSeq: 1\r\n\r\n", "\x81\x85\x37\xfa\x21\x3d\x7f\x9f\x4d\x51\x58",
+    "\x88\x82\x00\x00\x00\x00\x03\xe8", "\x03\x00\x00\x13\x0e\xe0\x00\x00\x00\x00\x00\x01\x00\x08\x00\x03\x00\x00\x00",
+    "\x10\x10\x00\x04MQTT\x04\x02\x00\x3c\x00\x04abcd", "*1\r\n$4\r\nPING\r\n", "\x00\x00\x00\x08\x04\xd2\x16\x2f",
+    "\x4a\x00\x00\x00\x0a5.7.1\x00", "AMQP\x00\x00\x09\x01", "\x12\x01\x00\x2f\x00\x00\x01\x00", "\xff\xfd\x18\xff\xfd\x20\xff\xfd\x23",
+    "HTTP/1.1 200 OK\r\nContent-Length: 0\r\n\r\n", "GET / HTTP/1.1\r\nHost: a\r\n\r\n", "\xef\xbb\xbfGET / HTTP/1.1", "\xff\xfeG\x00E\x00T\x00 \x00/\x00",
+    "\x1f\x8b\x08\x00\x00\x00\x00\x00\x00\x03", "{\"jsonrpc\": \"2.0\"}\n", "<?xml version=\"1.0\"?>\n", "stats\r\n", "\x00\x00\x00\x00\x00\x00\x00\x00",
+]
+# where the foreign bytes stand in the stream: (before, after); 'bare' = nothing else follows (the input ends there)
+OPENING_FORMS = {
+    "server": {"line": ("", "\r\nHost: a\r\n\r\n"), "method": ("", " / HTTP/1.1\r\nHost: a\r\n\r\n"), "bare": ("", ""),
+               "line_lf": ("", "\n\n"), "method_only_sp": ("", " \r\n\r\n"),
+               "target": ("GET ", " HTTP/1.1\r\nHost: a\r\n\r\n"), "version": ("GET / ", "\r\nHost: a\r\n\r\n"),
+               "field": ("GET / HTTP/1.1\r\n", "\r\n\r\n"), "after_blank_lines": ("\r\n\r\n", "\r\n\r\n"),
+               "second_line": ("GET / HTTP/1.1\r\nHost: a\r\n\r\n", "\r\nHost: a\r\n\r\n"),
+               "second_method": ("GET / HTTP/1.1\r\nHost: a\r\n\r\n", " / HTTP/1.1\r\nHost: a\r\n\r\n")},
+    "client": {"line": ("", "\r\n\r\n"), "version": ("", " 200 OK\r\nContent-Length: 0\r\n\r\n"), "bare": ("", ""),
+               "status": ("HTTP/1.1 ", "\r\nContent-Length: 0\r\n\r\n"), "reason": ("HTTP/1.1 200 ", "\r\nContent-Length: 0\r\n\r\n"),
+               "field": ("HTTP/1.1 200 OK\r\n", "\r\nContent-Length: 0\r\n\r\n"),
+               "second_line": ("HTTP/1.1 200 OK\r\nContent-Length: 0\r\n\r\n", "\r\n\r\n")},
+}
+_OPENING_FORM_WEIGHTS = {"server": ["line"] * 4 + ["method"] * 4 + ["bare", "line_lf", "method_only_sp", "target", "version", "field",
+                                                                 "after_blank_lines", "second_line", "second_method"],
+                         "client": ["line"] * 3 + ["version"] * 2 + ["bare", "status", "reason", "field", "second_line"]}
+
+
+def _gen_openings(rng):
+    """One opening of another protocol cut at every length 1..8 (and at a few longer ones, and whole), plus a few 1-3 byte
+    lines of arbitrary bytes, each placed where the scenario's forms say; cases are [side, form, bytes, read boundaries]."""
+    opening = rng.choice(OPENINGS)
+    side = "server" if rng.random() < 0.75 else "client"
+    forms = [rng.choice(_OPENING_FORM_WEIGHTS[side]) for _ in range(2)]
+    lens = sorted(set(range(1, min(8, len(opening)) + 1)) | {rng.randint(1, len(opening)) for _ in range(2)} | {len(opening)})
+    cases = []
+    for form in sorted(set(forms)):
+        for k in lens:
+            cases.append([side, form, opening[:k]])
+    for _ in range(4):
+        cases.append([side, rng.choice(forms), "".join(chr(rng.randrange(256)) for _ in range(rng.randint(1, 3)))])
+    for c in cases:
+        pre, post = OPENING_FORMS[side][c[1]]
+        c.append(_cuts(rng, len(pre) + len(c[2]) + len(post), rng.choice(["whole", "whole", "whole", "pieces", "byte"])))
+    return {"kind": "openings", "cases": cases, "limits": dict(LIMIT_SETS[3] if rng.random() < 0.7 else rng.choice(LIMIT_SETS)),
+            "policy": rng.choice(["whole", "whole", "byte", "small", "after_cr", "tiny"]), "read_bufsize": rng.choice([65536, 8])}
+
+
 def gen(rng, tier, index):
+    scn = _gen_main(rng, tier, index)
+    # drawn after everything else, so that the other kinds keep their scenarios
+    if rng.random() < 0.08:
+        return _gen_openings(rng)
+    return scn
+
+
+def _gen_main(rng, tier, index):
     r0 = rng.random()
     if 0.26 <= r0 < 0.33:
         return _gen_chunked(rng)
@@ -478,7 +552,13 @@ def shrink(scn):
     if scn["kind"] == "caller" and len(scn["garbage"]) > 1:
         for i in range(len(scn["garbage"])):
             yield dict(scn, garbage=[scn["garbage"][i]])
-    if scn["kind"] in ("targets", "chunked"):
+    if scn["kind"] == "openings":
+        for i, c in enumerate(scn["cases"]):
+            if c[3]:
+                yield dict(scn, cases=scn["cases"][:i] + [c[:3] + [[]]] + scn["cases"][i + 1:])
+        if scn["limits"] != LIMIT_SETS[3]:
+            yield dict(scn, limits=dict(LIMIT_SETS[3]))
+    if scn["kind"] in ("targets", "chunked", "openings"):
         if len(scn["cases"]) > 1:
             for c in scn["cases"]:
                 yield dict(scn, cases=[c])
@@ -1068,6 +1148,64 @@ def run(scn, ch, log=False):
                             violate("only_protocol_errors", f"client:exception_type:{type(e).__name__}",
                                     f"client parser surfaced {type(e).__name__}: {e!r} on {what}")
                             break
+        elif kind == "openings":
+            lim = scn["limits"]
+            ctx = Ctx(w, lim, scn["read_bufsize"])
+            ctx.start_server()
+            from aiohttp.client_exceptions import ClientError
+            from aiohttp.http_exceptions import HttpProcessingError
+            streams = []
+            for side, form, p, cuts in scn["cases"]:
+                pre, post = OPENING_FORMS[side][form]
+                streams.append([side, form, p, pre + p + post, cuts])
+            # the parser objects themselves first (feed_data at the case's read boundaries, then feed_eof)
+            if _direct(w, {"family": "eofcut", "limits": lim, "cases": [[sd, s, cuts] for sd, _f, _p, s, cuts in streams]}, violate, probes):
+                nontrivial = True
+            for side, form, p, s, _cuts_ in ([] if viols else streams):
+                data = G.enc(s)
+                what = f"foreign opening {p[:40]!r} ({len(p)} bytes) as {form} of a {'request' if side == 'server' else 'response'}: {s[:90]!r}"
+                probes["opening_cases"] = probes.get("opening_cases", 0) + 1
+                if side == "server":
+                    out = ctx.server_once(data, scn["policy"])
+                    if _escape_violation(out, "server", violate, what):
+                        break
+                    if out["capped"]:
+                        violate("no_hang", "server:step_cap", f"server did not settle on {what}")
+                        break
+                    if "ERR" in out["recs"]:
+                        nontrivial = True
+                        probes["opening_rejections"] = probes.get("opening_rejections", 0) + 1
+                        # (the 400's body quotes the offending line, which may itself look like a status line: any 4xx)
+                        if not any(400 <= x < 500 for x in out["statuses"]):
+                            violate("parser_error_is_4xx", "server:parser_error_without_4xx",
+                                    f"parser error on {what} but statuses={out['statuses']}")
+                            break
+                    elif "REQ" in out["recs"]:
+                        probes["opening_accepted"] = probes.get("opening_accepted", 0) + 1
+                    elif form != "bare" and s.strip("\r\n"):
+                        # the stream has something other than empty lines and ends with an empty line: the parser has a
+                        # complete header block (or met an error before it), so it yields a message or a protocol error
+                        violate("no_hang", "server:complete_request_neither_handled_nor_refused",
+                                f"{what} ({scn['policy']} delivery) neither reached the handler nor was refused: "
+                                f"statuses={out['statuses']} closed={out['closed']}")
+                        break
+                else:
+                    out = ctx.client_once(data, scn["policy"], eof=True)
+                    if _escape_violation(out, "client", violate, what):
+                        break
+                    if out["blocked"]:
+                        violate("no_hang", "client:consumer_blocked_after_eof", f"client consumer still blocked after EOF on {what}")
+                        break
+                    e = out["etype"]
+                    if _payload_violation(e, "client", violate, what):
+                        break
+                    if e is not None:
+                        nontrivial = True
+                        probes["opening_rejections"] = probes.get("opening_rejections", 0) + 1
+                        if not isinstance(e, (HttpProcessingError, ClientError)):
+                            violate("only_protocol_errors", f"client:exception_type:{type(e).__name__}",
+                                    f"client parser surfaced {type(e).__name__}: {e!r} on {what}")
+                            break
         elif kind == "work":
             nontrivial = True
             counts = []
@@ -1366,6 +1504,10 @@ def oracle_selftest():
     wrapped = RequestPayloadError("x")
     wrapped.__cause__ = KeyError("k")
     assert isinstance(_foreign_cause(wrapped), KeyError) and isinstance(_foreign_cause(ValueError("v")), ValueError)
+    assert all(0 < len(o) and max(map(ord, o)) < 256 for o in OPENINGS) and sorted(_OPENING_FORM_WEIGHTS) == sorted(OPENING_FORMS)
+    assert all(set(_OPENING_FORM_WEIGHTS[sd]) == set(OPENING_FORMS[sd]) for sd in OPENING_FORMS)
+    og = _gen_openings(random.Random(7))
+    assert {len(c[2]) for c in og["cases"]} >= set(range(1, 4)) and all(c[1] in OPENING_FORMS[c[0]] for c in og["cases"])
     side, s = build_numeric("req_chunk_size", 5, "1", "0", "a", 3)
     assert side == "server" and s.endswith("\r\n\r\n1aaaa\r\nabc")
     side, s = build_numeric("resp_content_length", 4, "0", "7", "a", 0)
